@@ -580,7 +580,7 @@ def run(ctx):
                      "cap": rng.choice(CAPS), "search_outer": rng.random() < 0.5,
                      "trace": 1500 if c % 2 == 0 else 0, "net": kindnet, "cobj": cobj, "timeout": 15})
     # K2 + oracle: end to end on precondition networks
-    n_net = max(12, int(ctx.n(24, 260) * scale))
+    n_net = max(12, int(ctx.n(24, 170) * scale))
     nets = []
     directed = directed_nets(rng, ctx.n(3, 12))
     dlist = [(k, net) for k, v in sorted(directed.items()) for net in v]
@@ -795,7 +795,7 @@ def run(ctx):
             recs.append(dict(rec, what="Coq spec score / admissibility of the returned tree"))
             # brute_min inside Coq costs ~1.5 s for n=6 and ~17 s for n=7: all configurations up to
             # n=5 (quick) / n=6 (thorough), a few per network at the enumeration limit
-            if n < enum_limit or (n == enum_limit and (job["oi"] + 2 * int(so) + c) % ctx.n(4, 8) == 0):
+            if n < enum_limit or (n == enum_limit and (job["oi"] + 2 * int(so) + c) % ctx.n(4, 10) == 0):
                 lhs3 = "let p := %s in brute_min (p_nodes p) (p_app p) (p_sizes p) %s %s" % (P, cobj, coq(bool(so)))
                 rhs3 = "(Some %s)" % coq(Z(got))
                 cases.append((job["id"] + "_brute", lhs3, rhs3))
